@@ -79,6 +79,7 @@ static void desc_stack(uint64_t i, FILE *o) {
 static k_alpha *A_lines, *A_seeds; static int n_seeds; static k_frag *SEEDS; static const char **SEED_NAMES;
 static const short CW[] = { FORMAT_HTML, FORMAT_LATEX, FORMAT_FODT, FORMAT_OPML };
 static int KMAX = 32;
+static unsigned long cost_ext = EXT_DEFAULT;
 static uint64_t measure(const unsigned char *seed, size_t n, long k, int fmt) {
 	DString *d = d_string_new("");
 	/* "prefix \x01 unit \x01 suffix": the unit is repeated, prefix and suffix (definitions, a table head, a fence) appear once */
@@ -90,15 +91,17 @@ static uint64_t measure(const unsigned char *seed, size_t n, long k, int fmt) {
 	} else for (long i = 0; i < k; i++) d_string_append_c_array(d, (const char *)seed, n);
 	POOL_INIT(); srand(1);
 	cost = 0; counting = 1;
-	char *out = mmd_string_convert(d->str, EXT_DEFAULT, fmt, 0);
+	char *out = mmd_string_convert(d->str, cost_ext, fmt, 0);
 	counting = 0;
 	free(out); POOL_DRAIN(); d_string_free(d, true);
 	return cost;
 }
 static int warmed;
 static void run_cost(uint64_t i) {
-	int wi = i % 4; int si = (int)(i / 4);
+	static const unsigned long CX[3] = { EXT_DEFAULT, EXT_DEFAULT | EXT_RANDOM_LABELS | EXT_RANDOM_FOOT | EXT_OBFUSCATE | EXT_COMPLETE, EXT_COMPAT_SET };
+	int wi = i % 4; int xi = (int)((i / 4) % 3); int si = (int)(i / 12); cost_ext = EXT_DEFAULT;
 	if (!warmed) { measure((const unsigned char *)"warm *up*\n\n", 11, 4, FORMAT_HTML); measure((const unsigned char *)"warm *up*\n\n", 11, 4, CW[wi]); warmed = 1; }
+	cost_ext = CX[xi];
 	k_frag *f = &SEEDS[si];
 	/* sizes: the smallest power of two k0 with k0*|d| >= 32 kB, then 2*k0, 4*k0 (8*k0 thorough): large enough to be past
 	   fixed-size look-back windows (kLargeStackThreshold = 1000 tokens); the verdict is on the LAST doubling (asymptotic behaviour),
@@ -116,12 +119,12 @@ static void run_cost(uint64_t i) {
 	}
 	k_outcome(k_fnv(&prev, 8, si * 7 + wi));
 	if (last > 2.6) {
-		char sig[160]; snprintf(sig, sizeof sig, "cost:superlinear:%s", SEED_NAMES[si]);
+		char sig[160]; snprintf(sig, sizeof sig, "cost:superlinear:%s%s", SEED_NAMES[si], xi == 1 ? ":random-ids" : xi == 2 ? ":compat" : "");
 		k_violation(sig, "cost(d^%ld)/cost(d^%ld) = %.2f > 2.6 for writer %s (ratios at successive doublings from k=%ld: %s)", lastk, lastk / 2, last, FORMAT_NAMES[CW[wi]], k0, all);
 	} else k_note("judged", 1);
 	if (worst > 2.6 && last <= 2.6) k_note("aux1", 1);      /* transient super-linear step that flattens out */
 }
-static void desc_cost(uint64_t i, FILE *o) { int wi = i % 4; int si = (int)(i / 4); fprintf(o, "\"seed_name\":\"%s\",", SEED_NAMES[si]); k_json_bytes(o, "seed", SEEDS[si].s, SEEDS[si].n > 200 ? 200 : SEEDS[si].n); fprintf(o, ",\"writer\":\"%s\"", FORMAT_NAMES[CW[wi]]); }
+static void desc_cost(uint64_t i, FILE *o) { int wi = i % 4; int si = (int)(i / 12); fprintf(o, "\"options\":\"%s\",", (i / 4) % 3 == 0 ? "default" : (i / 4) % 3 == 1 ? "random labels+random footnotes+obfuscate+complete" : "compatibility"); fprintf(o, "\"seed_name\":\"%s\",", SEED_NAMES[si]); k_json_bytes(o, "seed", SEEDS[si].s, SEEDS[si].n > 200 ? 200 : SEEDS[si].n); fprintf(o, ",\"writer\":\"%s\"", FORMAT_NAMES[CW[wi]]); }
 
 static void add_seed(const char *name, const unsigned char *s, size_t n) { SEEDS = realloc(SEEDS, sizeof(k_frag) * (n_seeds + 1)); SEED_NAMES = realloc(SEED_NAMES, sizeof(char *) * (n_seeds + 1)); SEEDS[n_seeds].s = (unsigned char *)s; SEEDS[n_seeds].n = n; SEED_NAMES[n_seeds] = strdup(name); n_seeds++; }
 
@@ -140,7 +143,7 @@ int main(int argc, char **argv) {
 		{ "q_stack", (uint64_t)NCONS * 5 * 3 * NSW, run_stack, desc_stack, "q", "29 nesting constructs x {openers only, matched, closers only} x depth {10,100,1e3,1e4,1e5} x {html,latex,fodt,opml,itmz,critic accept,critic reject,opml import}" },
 		{ "t_stack", (uint64_t)NCONS * 6 * 3 * NSW, run_stack, desc_stack, "t", "same grid with depths up to 1e5 and 1e6" },
 #ifdef VP_COST
-		{ "cost", (uint64_t)n_seeds * 4, run_cost, desc_cost, "qt", "seeds (every line kind, block/pathological seeds, corpus documents) x {html,latex,fodt,opml}: cost(d^2k)/cost(d^k) <= 2.6 for doubling k" },
+		{ "cost", (uint64_t)n_seeds * 12, run_cost, desc_cost, "qt", "seeds (every line kind, block/pathological seeds, prefix/unit/suffix seeds, corpus documents) x {html,latex,fodt,opml} x {default, random ids + obfuscation + complete, compatibility}: cost(d^2k)/cost(d^k) <= 2.6 for doubling k" },
 #endif
 	};
 	/* the depth axis differs between the two stack levels */
